@@ -300,6 +300,16 @@ def gen_props(rng, kmax=3):
     return {i: gen_prop(rng, i) for i in ids}
 
 
+def gen_props_permuted(rng):
+    """props metadata whose identifiers are a non-trivial permutation of (some of) the keys"""
+    ids = rng.sample([n for n in NAMES if n] + ["seg_id", "score", "track", "area"], rng.randint(2, 4))
+    k = rng.randint(2, len(ids))
+    moved = ids[:k]
+    shift = rng.randint(1, k - 1)
+    target = {a: moved[(i + shift) % k] for i, a in enumerate(moved)}
+    return {i: gen_prop(rng, target.get(i, i)) for i in ids}
+
+
 def gen_extra(rng, depth=0):
     def val(d):
         r = rng.random()
@@ -423,6 +433,13 @@ def catalogue():
              ({"a": pm("a", zzz=1)}, "ok")]
     props += [({"a": pm("a", dt)}, "ok") for dt in DTYPES_OK[1:] + DTYPES_ALIAS]
     props += [({"a": pm("a", dt)}, "bad") for dt in DTYPES_BAD]
+    # identifiers that are a PERMUTATION of the keys (the key *set* equals the identifier set, every pair is wrong)
+    props += [({"area": pm("score"), "score": pm("area")}, "bad"),
+              ({"a": pm("b"), "b": pm("c"), "c": pm("a")}, "bad"),
+              ({"a": pm("a"), "b": pm("c"), "c": pm("b")}, "bad"),
+              ({"a": pm("b", "float32"), "b": pm("a", "str", varlength=False), "keep": pm("keep", "uint8")}, "bad"),
+              ({"x": pm("y"), "y": pm("x"), "z": pm("z"), "t": pm("t")}, "bad"),
+              ({"a": pm("b"), "b": pm("b")}, "bad"), ({"a": pm("a"), "b": pm("a")}, "bad")]
     props += [({"a": pm("b")}, "bad"), ({"a": pm("a"), "b": pm("c")}, "bad"), ({"": pm("")}, "bad"), ({"a": pm("")}, "bad"),
               ({"a": pm("a", None)}, "bad"), ({"a": pm("a", 5)}, "bad"), ({"a": {"identifier": "a"}}, "bad"),
               ({"a": {"dtype": "int8"}}, "bad"), ({"a": pm(5)}, "bad"), ({"a": pm("a", varlength=None)}, "bad"),
